@@ -23,7 +23,15 @@
 //                with what the pass can read from the answer (the output
 //                signals of the CFG and the number of their dimensions).
 //                Output per order and definition: lookups with answers, the
-//                pass reports.
+//                pass reports, per pass the number of questions put to the
+//                context and the ids of its reports.  This mode exists to
+//                RECORD the lookups; it re-plays take/passes/replace and does
+//                not run analyze_template itself - that is `allorders`.
+//
+//   c17 allorders  stdin: {"files":[..],"libs":[..],"curve":..,"want":N,"cap":M}
+//                The real analyze_functions / analyze_templates (the private
+//                analyze_template with take_*_reports and the writer) in
+//                fresh threads until N distinct analysis orders were seen.
 use program_analysis::analysis_context::{AnalysisContext, AnalysisError};
 use program_analysis::analysis_runner::AnalysisRunner;
 use program_analysis::{config, get_analysis_passes};
@@ -98,11 +106,22 @@ struct Capture {
     written: usize,
 }
 
+/// "<verb> template|function <name>": the announcement of the analysis of a
+/// definition, whatever the verb and the quotes are.
+fn is_owner_line(m: &str) -> bool {
+    let w: Vec<&str> = m.split_whitespace().collect();
+    w.len() == 3 && (w[1] == "template" || w[1] == "function")
+}
+
+fn owner_suffix(m: &str) -> String {
+    m.split_once(' ').map(|x| x.1.to_string()).unwrap_or_default()
+}
+
 impl LogWriter for Capture {
     fn write_messages<D: Display>(&mut self, messages: &[D]) {
         for m in messages {
             let m = m.to_string();
-            if m.starts_with("analyzing ") {
+            if is_owner_line(&m) {
                 self.owner = m.clone();
             }
             self.log.push(m);
@@ -179,8 +198,8 @@ fn orders(line: &str) -> String {
                 forders.push(f.join(" "));
                 aorders.push(
                     log.iter()
-                        .filter(|m| m.starts_with("analyzing "))
-                        .map(|m| m["analyzing ".len()..].to_string())
+                        .filter(|m| is_owner_line(m))
+                        .map(|m| owner_suffix(m))
                         .collect::<Vec<_>>()
                         .join(" "),
                 );
@@ -209,6 +228,75 @@ fn orders(line: &str) -> String {
     .to_string()
 }
 
+// ---- allorders ------------------------------------------------------------------
+
+/// The REAL `analyze_functions` / `analyze_templates` (hence the real private
+/// `analyze_template` / `analyze_function` with `take_*_reports` and the
+/// writer) under EVERY order of the two name maps: the pipeline is repeated in
+/// fresh threads (fresh hasher keys, hence another iteration order of
+/// `template_asts` / `function_asts`) until `want` distinct analysis orders
+/// have been seen or `cap` repetitions were made.  No hook is needed: for the
+/// small maps this is used for (<= 4 entries) every permutation turns up
+/// within a few dozen hash states.  Output: per distinct analysis order the
+/// number of times it was seen and the index of its outcome; the distinct
+/// outcomes (owner -> sorted reports, as `orders` gives them).
+fn allorders(line: &str) -> String {
+    let (input, files, libs, curve) = match inputs(line) {
+        Ok(x) => x,
+        Err(e) => return json!({"bad_input": e}).to_string(),
+    };
+    let cap = input["cap"].as_u64().unwrap_or(200) as usize;
+    let want = input["want"].as_u64().unwrap_or(1) as usize;
+    let mut seen: Vec<(String, usize, Vec<usize>)> = Vec::new(); // order, count, outcome indices
+    let mut outcomes: Vec<String> = Vec::new();
+    let mut reps = 0;
+    let mut panics = 0;
+    while reps < cap && seen.len() < want {
+        reps += 1;
+        let (f, l, c) = (files.clone(), libs.clone(), curve.clone());
+        let res = std::thread::Builder::new()
+            .stack_size(64 << 20)
+            .spawn(move || guarded(|| pipeline(&f, &l, &c)))
+            .ok()
+            .and_then(|h| h.join().ok())
+            .flatten();
+        let Some((_, _, log, owners)) = res else {
+            panics += 1;
+            continue;
+        };
+        let order = log
+            .iter()
+            .filter(|m| is_owner_line(m))
+            .map(|m| owner_suffix(m))
+            .collect::<Vec<_>>()
+            .join(" ");
+        let canon = json!({"owners": owners}).to_string();
+        let oi = match outcomes.iter().position(|o| *o == canon) {
+            Some(i) => i,
+            None => {
+                outcomes.push(canon);
+                outcomes.len() - 1
+            }
+        };
+        match seen.iter_mut().find(|s| s.0 == order) {
+            Some(s) => {
+                s.1 += 1;
+                if !s.2.contains(&oi) {
+                    s.2.push(oi);
+                }
+            }
+            None => seen.push((order, 1, vec![oi])),
+        }
+    }
+    let orders: Vec<Value> = seen
+        .iter()
+        .map(|(o, n, ois)| json!({"order": o, "count": n, "outcomes": ois}))
+        .collect();
+    let outs: Vec<Value> =
+        outcomes.iter().map(|c| serde_json::from_str::<Value>(c).unwrap_or(Value::Null)).collect();
+    json!({"reps": reps, "want": want, "panics": panics, "orders": orders, "outcomes": outs}).to_string()
+}
+
 // ---- deps ---------------------------------------------------------------------
 
 /// What a pass can read from the answer to a lookup: the output signals of the
@@ -229,15 +317,21 @@ fn summary(cfg: &Cfg) -> Value {
 struct Rec<'a> {
     inner: &'a mut AnalysisRunner,
     lookups: Vec<Value>,
+    /// is_function / is_template questions (they take &self): name, kind, answer
+    asked: std::cell::RefCell<Vec<Value>>,
 }
 
 impl<'a> AnalysisContext for Rec<'a> {
     fn is_function(&self, name: &str) -> bool {
-        self.inner.is_function(name)
+        let a = self.inner.is_function(name);
+        self.asked.borrow_mut().push(json!({"kind": "is_function", "name": name, "answer": a}));
+        a
     }
 
     fn is_template(&self, name: &str) -> bool {
-        self.inner.is_template(name)
+        let a = self.inner.is_template(name);
+        self.asked.borrow_mut().push(json!({"kind": "is_template", "name": name, "answer": a}));
+        a
     }
 
     fn function(&mut self, name: &str) -> Result<&Cfg, AnalysisError> {
@@ -281,12 +375,24 @@ fn analyze(runner: &mut AnalysisRunner, kind: &str, name: &str) -> Value {
         }
     };
     let own = summary(&cfg);
-    let mut rec = Rec { inner: runner, lookups: Vec::new() };
+    let mut rec = Rec { inner: runner, lookups: Vec::new(), asked: Default::default() };
     let mut reports = Vec::new();
+    // per pass (by position in get_analysis_passes()): how many questions it put to the
+    // context and the ids of the reports it returned - which passes CAN depend on other
+    // definitions is observed by running them, not read from the source text
+    let mut per_pass = Vec::new();
     for pass in get_analysis_passes() {
-        reports.append(&mut pass(&mut rec, &cfg));
+        let before = rec.lookups.len() + rec.asked.borrow().len();
+        let mut rs = pass(&mut rec, &cfg);
+        let asked = rec.lookups.len() + rec.asked.borrow().len() - before;
+        let mut ids: Vec<String> = rs.iter().map(|r| r.id()).collect();
+        ids.sort();
+        ids.dedup();
+        per_pass.push(json!({"questions": asked, "ids": ids}));
+        reports.append(&mut rs);
     }
-    let lookups = std::mem::take(&mut rec.lookups);
+    let mut lookups = std::mem::take(&mut rec.lookups);
+    lookups.append(&mut rec.asked.borrow_mut());
     let regenerated = if is_template {
         runner.replace_template(name, cfg)
     } else {
@@ -296,7 +402,7 @@ fn analyze(runner: &mut AnalysisRunner, kind: &str, name: &str) -> Value {
     let mut rs: Vec<String> = reports.iter().map(|r| report_json(r, fl).to_string()).collect();
     rs.sort();
     json!({"kind": kind, "name": name, "lifted": true, "summary": own, "lookups": lookups,
-           "regenerated": regenerated,
+           "regenerated": regenerated, "per_pass": per_pass,
            "pass_reports": rs.iter().map(|s| serde_json::from_str::<Value>(s).unwrap_or(Value::Null)).collect::<Vec<_>>()})
 }
 
@@ -366,8 +472,9 @@ fn main() {
     match args.get(1).map(|s| s.as_str()) {
         Some("orders") => each_line(orders),
         Some("deps") => each_line(deps),
+        Some("allorders") => each_line(allorders),
         _ => {
-            eprintln!("usage: c17 orders|deps");
+            eprintln!("usage: c17 orders|deps|allorders");
             std::process::exit(2);
         }
     }
